@@ -57,8 +57,8 @@ KINDS = ["ZeroDivisionError", "KeyError", "ValueError", "HarnessError", "None"]
 
 def plan(tier):
     if tier == "quick":
-        return {"shards": 8, "examples": 100, "wall": 80}
-    return {"shards": 16, "examples": 1500, "wall": 1800}
+        return {"shards": 8, "examples": 400, "wall": 100}
+    return {"shards": 16, "examples": 5000, "wall": 2400}
 
 
 @st.composite
